@@ -428,7 +428,7 @@ func runC03(c *Ctx) {
 }
 
 func (c *Ctx) ruleI3(kinds map[int64]string) {
-	numeric := map[string]bool{"Int": true, "Int8": true, "Int16": true, "Int32": true, "Int64": true, "Uint": true, "Uint8": true, "Uint16": true, "Uint32": true, "Uint64": true, "Float32": true, "Float64": true}
+	_ = map[string]bool{}
 	// getNumType
 	tagOf := map[string]int64{}
 	numericKinds := []string{"int", "int8", "int16", "int32", "int64", "uint", "uint8", "uint16", "uint32", "uint64", "float32", "float64"}
@@ -615,53 +615,47 @@ func (c *Ctx) ruleI3(kinds map[int64]string) {
 		c.Check("I3-ParamsTypeChange", "every-declared-parameter", okAll, f.Pos(), "%s", orStr(whyAll, "parameters 0 .. NumIn()-1 are all converted"))
 	}
 	// GetWantedValue
-	if f := c.MustFn("I3-GetWantedValue", "internal/core", "", "GetWantedValue"); f != nil {
+	if f := c.MustFn("I3-GetWantedValue", "internal/core", "", "GetWantedValue"); f != nil && len(f.Params) >= 2 {
 		x := c.Index(f)
-		rows := 0
-		handled := map[string]bool{}
-		defaultPasses := true
+		// the conversion sites: reflect.ValueOf(T(v.Accessor()))
+		var sites []*ssa.Call
 		eachInstr(f, func(in ssa.Instruction) {
-			r, ok := in.(*ssa.Return)
-			if !ok {
-				return
-			}
-			_, ks := x.caseConsts(r.Block())
-			if len(ks) == 0 {
-				// outside the table: whatever gets here is handed on as it is
-				for _, pv := range x.PossibleValues(r.Results[0]) {
-					if pv.V != ssa.Value(f.Params[0]) {
-						defaultPasses = false
-					}
+			if vo, isCall := in.(*ssa.Call); isCall && fnIs(vo.Call.StaticCallee(), "reflect", "", "ValueOf") {
+				if acc, _, _ := x.accessorOf(vo.Call.Args[0]); acc != "" {
+					sites = append(sites, vo)
 				}
-				return
 			}
-			for _, kc := range ks {
-				if !numeric[kinds[kc]] {
+		})
+		rows := 0
+		missing := ""
+		// explored per (target kind, source kind): which conversion is reached, if any
+		for _, T := range numericKinds {
+			kname := strings.ToUpper(T[:1]) + T[1:]
+			key := "GetWantedValue#" + kname
+			ok2, why := true, ""
+			converted, passed := 0, 0
+			var pos token.Pos = f.Pos()
+			for _, S := range numericKinds {
+				if S == T {
 					continue
 				}
-				kname := kinds[kc]
-				if handled[kname] {
-					continue
+				env := &kenv{x: x, kindOf: map[ssa.Value]string{f.Params[0]: S, f.Params[1]: T}}
+				env.explore(f, kinds, nil)
+				var hit []*ssa.Call
+				for _, vo := range sites {
+					if env.visited[vo.Block()] {
+						hit = append(hit, vo)
+					}
 				}
-				handled[kname] = true
-				rows++
-				key := "GetWantedValue#" + kname
-				ok2 := true
-				why := ""
-				for _, pv := range x.PossibleValues(r.Results[0]) {
-					if pv.V == ssa.Value(f.Params[0]) {
-						if kname != "Int64" && kname != "Uint64" && kname != "Float64" {
-							ok2, why = false, "the value is passed on unconverted"
-						}
-						continue
-					}
-					vo, isCall := pv.V.(*ssa.Call)
-					if !isCall || !fnIs(vo.Call.StaticCallee(), "reflect", "", "ValueOf") {
-						ok2, why = false, "unexpected result "+x.Describe(pv.V)
-						continue
-					}
+				switch len(hit) {
+				case 0:
+					passed++
+				case 1:
+					converted++
+					vo := hit[0]
+					pos = vo.Pos()
 					acc, recv, typ := x.accessorOf(vo.Call.Args[0])
-					if basicName(typ) != strings.ToLower(kname) {
+					if basicName(typ) != T {
 						ok2, why = false, "converts to "+basicName(typ)
 					}
 					if accessorClass[acc] != kindClass(kname) {
@@ -670,22 +664,23 @@ func (c *Ctx) ruleI3(kinds map[int64]string) {
 					if x.Origin(recv) != ssa.Value(f.Params[0]) {
 						ok2, why = false, "reads another value"
 					}
+				default:
+					ok2, why = false, fmt.Sprintf("%d conversions can be reached for a %s value", len(hit), S)
 				}
-				c.Check("I3-GetWantedValue", key, ok2, r.Pos(), "target kind %s: %s", kname, orStr(why, "converted to that kind with the accessor of its class"))
 			}
-		})
-		// the nine narrower kinds need a row of their own; a 64-bit kind may also be left to
-		// the path outside the table, which hands the value on unconverted
-		missing := ""
-		for _, kname := range []string{"Int", "Int8", "Int16", "Int32", "Uint", "Uint8", "Uint16", "Uint32", "Float32"} {
-			if !handled[kname] {
+			wide := T == "int64" || T == "uint64" || T == "float64"
+			switch {
+			case converted > 0 && passed > 0:
+				ok2, why = false, "converted for some source kinds and passed on unconverted for others"
+			case converted == 0 && !wide:
 				missing += " " + kname
+				continue
+			case converted == 0:
+				// a 64-bit target may take the value as it is
+				continue
 			}
-		}
-		for _, kname := range []string{"Int64", "Uint64", "Float64"} {
-			if !handled[kname] && !defaultPasses {
-				missing += " " + kname
-			}
+			rows++
+			c.Check("I3-GetWantedValue", key, ok2, pos, "target kind %s: %s", kname, orStr(why, "converted to that kind with the accessor of its class"))
 		}
 		c.Check("I3-GetWantedValue", "rows", missing == "", f.Pos(), "%d numeric target kinds have a row; without one:%s", rows, orStr(missing, " none"))
 	}
